@@ -237,17 +237,18 @@ func (r *Run) Finish() {
 
 // Scenario is one property's simulated check.
 type Scenario struct {
-	Prop     string       `json:"prop"`
-	Desc     string       `json:"desc"`
-	Quick    int          `json:"quick"`    // runs in the quick tier
-	Thorough int          `json:"thorough"` // runs in the thorough tier
-	Race     bool         `json:"race"`     // needs the -race build
-	Crash    bool         `json:"crash_is_violation"`
-	Real     string       `json:"real"`  // components running real code
-	Model    string       `json:"model"` // components that are models / stubs
-	Rule     string       `json:"rule"`
-	Assume   []string     `json:"assume"`
-	Run      func(r *Run) `json:"-"`
+	Prop      string       `json:"prop"`
+	Desc      string       `json:"desc"`
+	Quick     int          `json:"quick"`                // runs in the quick tier
+	Thorough  int          `json:"thorough"`             // runs in the thorough tier
+	Race      bool         `json:"race"`                 // needs the -race build
+	RaceScope []string     `json:"race_scope,omitempty"` // detector reports count only if a frame contains one of these
+	Crash     bool         `json:"crash_is_violation"`
+	Real      string       `json:"real"`  // components running real code
+	Model     string       `json:"model"` // components that are models / stubs
+	Rule      string       `json:"rule"`
+	Assume    []string     `json:"assume"`
+	Run       func(r *Run) `json:"-"`
 }
 
 var scenarios = map[string]*Scenario{}
